@@ -565,6 +565,18 @@ fn job_run(job: &J, std: &Std) -> J {
     } else {
         (None, J::Null)
     };
+    let mut c_opt = c_opt;
+    let mut c_noopt = c_noopt;
+    if let (Some(p), Some(o)) = (&prog_opt, c_opt.as_object_mut()) {
+        let (n, h) = verif::program_stats(p);
+        o.insert("len".into(), json!(n));
+        o.insert("hash".into(), json!(format!("{h:016x}")));
+    }
+    if let (Some(p), Some(o)) = (&prog_noopt, c_noopt.as_object_mut()) {
+        let (n, h) = verif::program_stats(p);
+        o.insert("len".into(), json!(n));
+        o.insert("hash".into(), json!(format!("{h:016x}")));
+    }
     res.insert("compile".into(), c_opt);
     if want_noopt {
         res.insert("compile_noopt".into(), c_noopt);
